@@ -192,6 +192,47 @@ def lingering_scenario(viol, obs):
                 pass
 
 
+def failed_run_scenario(viol, obs):
+    """a run that fails (every worker killed, inputs taken back from them still waiting to be retried), the pool revived by restart_workers(), then
+    another run: its results must correspond to ITS inputs only"""
+    from pyworkers.pool import Pool, PoolError
+    from pyworkers.worker import WorkerType
+    pool = Pool(T.square, name='failed-run pool', close_timeout=2)
+    workers = []
+    try:
+        with pool:
+            workers.append(pool.add_worker(WorkerType.PROCESS, name='F1'))
+            workers.append(pool.add_worker(WorkerType.PROCESS, name='F2'))
+            r = pool.run(iter([1, 2, 3]))
+            if r is None or sorted(r) != [1, 4, 9]:
+                viol.append(f'failed-run scenario: run A returned {r!r} for inputs [1, 2, 3]')
+            for w in workers:
+                os.kill(w.pid, signal.SIGKILL)
+            t0 = time.time()
+            while any(w.is_alive() for w in workers) and time.time() - t0 < 10:
+                time.sleep(0.05)
+            try:
+                r = pool.run(iter([100, 101, 102]))
+                viol.append(f'failed-run scenario: run B on a pool whose workers were all killed returned {r!r} instead of raising PoolError')
+            except PoolError as e:
+                obs['run_B'] = f'PoolError, partial results {e.partial_results!r}' if hasattr(e, 'partial_results') else 'PoolError'
+            pool.restart_workers()
+            r = pool.run(iter([200, 201]))
+            obs['run_C'] = r
+            if r is None or sorted(r) != [40000, 40401]:
+                viol.append(f'failed-run scenario: run C with inputs [200, 201] returned {r!r} instead of [40000, 40401] after run B (inputs [100, 101, 102]) had failed '
+                            f'with PoolError and restart_workers() had revived the pool: results that are not from this run\'s inputs')
+            r = pool.run(iter([7]))
+            if r != [49]:
+                viol.append(f'failed-run scenario: run D with input [7] returned {r!r}')
+    except BaseException as e:     # noqa
+        viol.append(f'failed-run scenario: the with-block was left through {type(e).__name__}: {e}')
+    time.sleep(0.3)
+    for w in workers:
+        if w.is_alive():
+            viol.append(f'failed-run scenario: worker {w.name} outlived its pool')
+
+
 def main():
     sc = json.loads(sys.argv[1])
     viol, obs = [], {}
@@ -210,6 +251,8 @@ def main():
         dup_scenario(viol, obs)
     if not want or want.startswith('L4'):
         restart_scenario(viol, obs)
+    if not want or want.startswith('L2'):
+        failed_run_scenario(viol, obs)
     if not want or want.startswith('L1'):
         stuck_scenario(viol, obs)
         lingering_scenario(viol, obs)
